@@ -17,6 +17,7 @@ import (
 	"google.golang.org/protobuf/reflect/protoregistry"
 	"google.golang.org/protobuf/runtime/protoiface"
 	"google.golang.org/protobuf/runtime/protoimpl"
+	"google.golang.org/protobuf/types/dynamicpb"
 	"google.golang.org/protobuf/types/known/anypb"
 	"google.golang.org/protobuf/types/known/durationpb"
 	"google.golang.org/protobuf/types/known/timestamppb"
@@ -393,11 +394,28 @@ func runReaders(c *simrun.Ctx) *simrun.Violation {
 	info := infoOf(proto0)
 	var mt protoreflect.MessageType = info
 	md := info.Desc
-	cfg := simval.GenCfg{MaxDepth: 1 + t.Draw("maxdepth", 3), MaxFields: 1 + t.Draw("maxfields", 6), MaxMapEntries: 2 + t.Draw("maxentries", 4), MaxListLen: 1 + t.Draw("maxlist", 4), Unknown: t.Chance("unknowns", 1, 4), AnyTargets: anyTargets(), BigLists: true, InvalidUTF8: t.Chance("allow-invalid-utf8", 1, 6)}
+	cfg := simval.GenCfg{MaxDepth: 1 + t.Draw("maxdepth", 3), MaxFields: 1 + t.Draw("maxfields", 6), MaxMapEntries: 2 + t.Draw("maxentries", 4), MaxListLen: 1 + t.Draw("maxlist", 4), Unknown: t.Chance("unknowns", 1, 4), AnyTargets: anyTargets(), BigLists: true, InvalidUTF8: t.Chance("allow-invalid-utf8", 1, 6), Huge: t.Chance("allow-huge", 1, 10)}
 	av := simval.Gen(t, md, cfg)
-	canon := simval.Canon(av)
+	// Now and then a DEEP value: a chain of hundreds to thousands of nested
+	// messages along a recursive field path of the type, read by the largest
+	// number of tasks. Every task parked half-way down holds its depth, so
+	// anything that adds up across goroutines (a process-wide depth counter, a
+	// shared stack of scratch buffers) meets sums no single reader produces.
+	deepChain := 0
+	if path := recursionPath(md); path != nil && t.Chance("deep-chain", 1, 64) {
+		deepChain = []int{600, 2000, 3500}[t.Draw("deep-chain-depth", 3)]
+		av = buildChain(md, path, deepChain)
+		st.Add("fault_deep_chain_of_nested_messages", 1)
+	}
+	var canon string
+	if deepChain > 0 {
+		// (the canonical text of a chain is quadratic in its depth: described instead)
+		canon = fmt.Sprintf("chain of %d rounds of %d nested message(s) of %s", deepChain, len(recursionPath(md)), md.FullName())
+	} else {
+		canon = simval.Canon(av)
+	}
 	useStruct := t.Chance("build-struct", 1, 2)
-	useMorph := !useStruct && t.Chance("build-morph", 1, 2)
+	useMorph := !useStruct && deepChain == 0 && t.Chance("build-morph", 1, 2)
 	var morphFrom protoreflect.Message
 	if useMorph {
 		morphFrom = simval.Gen(t, md, cfg)
@@ -438,6 +456,9 @@ func runReaders(c *simrun.Ctx) *simrun.Violation {
 		}
 		if err != nil {
 			return nil
+		}
+		if deepChain > 0 {
+			return m
 		}
 		if got, err := simval.CanonStructDesc(m, md); err != nil || got != canon {
 			return nil
@@ -496,6 +517,9 @@ func runReaders(c *simrun.Ctx) *simrun.Violation {
 	if big && nTasks > 2 {
 		nTasks = 2
 	}
+	if deepChain > 0 {
+		nTasks = 6
+	}
 	tasks := make([]*readerTask, nTasks)
 	ordBase := uint64(t.Draw("ordbase", 1<<30))
 	warmOpsAllowed := t.Chance("warm-ops", 1, 3)
@@ -507,6 +531,11 @@ func runReaders(c *simrun.Ctx) *simrun.Violation {
 		rt := &readerTask{}
 		for j := 0; j < n; j++ {
 			kind := t.Draw("op", numOps)
+			if deepChain > 0 {
+				// operations whose cost is linear in the depth (Marshal is
+				// quadratic on this code base: every level sizes its subtree)
+				kind = []int{opSize, opMethodsSize, opSize, opEqualSame, opSize, opWhichOneof}[t.Draw("deep-op", 6)]
+			}
 			if !warmOpsAllowed && (kind == opSlowReflect || kind == opSharedMethodsSize || kind == opSharedMethodsMarshal) {
 				kind = opSize // these need state set up before the tasks start; most runs stay cold
 			}
@@ -548,6 +577,9 @@ func runReaders(c *simrun.Ctx) *simrun.Violation {
 
 	snap0 := simval.TakeSnapshot(shared)
 	snapEvery := 1 + len(snap0.Entries)/2000
+	if deepChain > 0 {
+		snapEvery = 64 // (the snapshot covers the top 40 levels; taking it is not free)
+	}
 	sched := simhook.NewSched()
 	sched.MaxSteps = 400 + t.Draw("maxsteps", 800)
 	for i := range tasks {
@@ -651,6 +683,55 @@ func runReaders(c *simrun.Ctx) *simrun.Violation {
 	c.Sample = map[string]interface{}{"type": string(md.FullName()), "value": clip(canon, 400), "programs": describePrograms(tasks), "steps": sched.Steps, "context_switches": sched.Switches,
 		"schedule_prefix": clip(strings.Join(schedule, " "), 600)}
 	return nil
+}
+
+// recursionPath finds a shortest cycle of singular message fields that leads
+// from md back to md (nil if the type is not recursive that way).
+func recursionPath(md protoreflect.MessageDescriptor) []protoreflect.FieldDescriptor {
+	type node struct {
+		md   protoreflect.MessageDescriptor
+		path []protoreflect.FieldDescriptor
+	}
+	queue := []node{{md, nil}}
+	seen := map[protoreflect.FullName]bool{}
+	for len(queue) > 0 {
+		n := queue[0]
+		queue = queue[1:]
+		if len(n.path) >= 3 {
+			continue
+		}
+		fds := n.md.Fields()
+		for i := 0; i < fds.Len(); i++ {
+			fd := fds.Get(i)
+			if fd.Message() == nil || fd.IsMap() || fd.IsList() {
+				continue
+			}
+			p := append(append([]protoreflect.FieldDescriptor{}, n.path...), fd)
+			if fd.Message().FullName() == md.FullName() {
+				return p
+			}
+			if !seen[fd.Message().FullName()] {
+				seen[fd.Message().FullName()] = true
+				queue = append(queue, node{fd.Message(), p})
+			}
+		}
+	}
+	return nil
+}
+
+// buildChain nests depth rounds of the path, innermost first.
+func buildChain(md protoreflect.MessageDescriptor, path []protoreflect.FieldDescriptor, depth int) *dynamicpb.Message {
+	inner := dynamicpb.NewMessage(md)
+	for d := 0; d < depth; d++ {
+		cur := inner
+		for i := len(path) - 1; i >= 0; i-- {
+			outer := dynamicpb.NewMessage(path[i].ContainingMessage())
+			outer.Set(path[i], protoreflect.ValueOfMessage(cur))
+			cur = outer
+		}
+		inner = cur
+	}
+	return inner
 }
 
 func describePrograms(tasks []*readerTask) []string {
